@@ -200,6 +200,95 @@ def a1(prog: Program, chk: Check) -> None:
         raise AnalysisError(f"A1: only {n} lru_cache methods found (floor 4)")
 
 
+# --------------------------------------------------------------------- A7
+def _a7_unit(u: Unit):
+    """[(store stmt, attr, key expr, covered, missing)] for hand-written memos in u."""
+    from oqv.dataflow import depends_on
+    out = []
+    stores = []
+    for st in walk_local(u.node):
+        if isinstance(st, ast.Assign) and isinstance(st.targets[0], ast.Subscript):
+            base = st.targets[0].value
+            while isinstance(base, ast.Subscript):
+                base = base.value
+            d = dotted(base)
+            if d and d.startswith("self.") and d.count(".") == 1:
+                stores.append((st, d))
+    if not stores:
+        return out
+    du = DefUse(u, CFG(u.node, exc_edges=False))
+    params = [p for p in u.params if p not in ("self", "cls")]
+    for (st, attr) in stores:
+        lookups = [d for d in du.defs if d.value is not None and not d.sel
+                   and attr in norm(d.value) and (
+                       (isinstance(d.value, ast.Call) and isinstance(d.value.func, ast.Attribute)
+                        and d.value.func.attr == "get") or isinstance(d.value, ast.Subscript))]
+        if not lookups:
+            continue
+        lk = lookups[0]
+        ctx = branch_context(u.node, st)
+        miss_tests = [t for (t, br) in ctx if br and any(
+            isinstance(x, ast.Name) and x.id == lk.name for x in ast.walk(t))]
+        rets = [x for x in walk_local(u.node) if isinstance(x, ast.Return) and x.value is not None
+                and any(isinstance(y, ast.Name) and y.id == lk.name for y in ast.walk(x.value))]
+        if not miss_tests or not rets:
+            continue
+        nid = du.node_of(st.value)
+        key_expr = st.targets[0].slice
+        covered = set()
+        for p_ in params:
+            if depends_on(du, key_expr, nid, {p_}):
+                covered.add(p_)
+            for t in miss_tests:
+                for cmp_ in ast.walk(t):
+                    if isinstance(cmp_, ast.Compare) and any(
+                            isinstance(y, ast.Name) and y.id == p_ for y in ast.walk(cmp_)) \
+                            and any(isinstance(y, ast.Name) and y.id == lk.name
+                                    for y in ast.walk(cmp_)):
+                        covered.add(p_)
+        needed = {p_ for p_ in params if depends_on(du, st.value, nid, {p_})}
+        out.append((st, attr, key_expr, sorted(covered), sorted(needed - covered)))
+    return out
+
+
+def a7(prog: Program, chk: Check) -> None:
+    chk.rule("A7", "a hand-written memo (look-up in a dict attribute, recompute-and-store on a "
+             "miss, value returned) must key or validate the entry by every parameter the stored "
+             "value depends on (expected count on the pinned tree: 0; a positive example under "
+             "selftest/positive must be reported on every run)", floor=1)
+    # the rule must still recognise the idiom: positive example
+    import os
+    from oqv.model import Module
+    here = os.path.dirname(os.path.dirname(os.path.abspath(__file__)))
+    ex = os.path.join(here, "selftest", "positive", "memo_stale.py")
+    with open(ex) as fh:
+        src = fh.read()
+    tree = ast.parse(src)
+    m = Module("positive.memo_stale", "positive.memo_stale", "selftest/positive/memo_stale.py",
+               tree, src)
+    fn = [x for x in ast.walk(tree) if isinstance(x, ast.FunctionDef) and x.name == "grid"][0]
+    pu = Unit("positive.memo_stale:Sampler.grid", m, fn, "Sampler", None, "grid")
+    hits = _a7_unit(pu)
+    if not (len(hits) == 1 and hits[0][4] == ["start_time"]):
+        raise AnalysisError("A7: the positive example selftest/positive/memo_stale.py is no longer "
+                            "reported - the rule has gone blind")
+    chk.add("A7", m, "positive example: memo keyed by kind, validated by dt, value depends on "
+            "start_time", True, "reported as expected (rule is alive)", function="Sampler.grid")
+    n = 0
+    for u in prog.units.values():
+        if isinstance(u.node, ast.Lambda) or u.cls is None:
+            continue
+        for (st, attr, key_expr, covered, missing) in _a7_unit(u):
+            n += 1
+            chk.saw(u)
+            chk.add("A7", u, f"memo {attr}[{norm(key_expr)}] <- {norm(st.value)[:50]}", not missing,
+                    f"entry keyed / validated by {covered}" if not missing else
+                    f"the stored value depends on {missing}, which is neither part of the key nor "
+                    f"checked on look-up: a later call with a different {missing[0]} gets the "
+                    f"stale entry", st)
+    chk.extra["a7_memos_found"] = n
+
+
 # ------------------------------------------------------------------ A2 / A3
 def _shallow_copied_classes(prog: Program) -> Dict[str, List[str]]:
     """class qual -> sites where an instance is shallow-copied (copy.copy)."""
@@ -876,6 +965,7 @@ def run(prog: Program, chk: Check) -> None:
         "copy.copy is shallow: attribute values (incl. closures) are shared",
     ]
     a1(prog, chk)
+    a7(prog, chk)
     a2_a3(prog, chk)
     a4(prog, chk)
     a5(prog, chk)
